@@ -262,6 +262,11 @@ extern bg_size bg_scratch_sz;
 typedef struct { VertexIndex src, dst; } bg_ghost_lookup_t;
 extern bg_ghost_lookup_t bg_ghost_lookup;
 typedef struct { bg_size n; bg_vec_sz rowP, rowQ; bg_size m; } bg_mat_sz;
+/* vector<EdgeWeight> / WeightMatrix: the entries at the observation points (A-REAL) */
+typedef struct { bg_size n; bg_real vP, vQ; } bg_vec_real;
+typedef struct { bg_size n; bg_vec_real rowP, rowQ; bg_size m; } bg_mat_real;
+extern bg_real bg_scratch_real;
+extern bg_vec_real bg_scratch_vec_real;
 extern bg_vec_sz bg_scratch_vec_sz;
 /* clean cache, frontier untouched (functions that cannot mutate a graph) */
 #define BG_SCRATCH_CLEAN_NF                                                   \
